@@ -1,5 +1,5 @@
 """C02 block acceptance.  BlockAccept.tla enumerates every single corruption of a valid candidate block
-(27 header/body corruption classes x 4 re-signing choices, 19 classes of a third transaction) in 3 chain situations and every set of already-added valid
+(27 header/body corruption classes x 4 re-signing choices, 24 classes of extra transactions) in 3 chain situations and every set of already-added valid
 variants; each is instantiated as a real block and offered to the real DPoVP.InsertBlock; TraceBlockAccept.tla
 requires: added iff valid, refusal leaves the node's observable state untouched."""
 LEVEL = "model_checking"
@@ -7,9 +7,9 @@ LEVEL = "model_checking"
 MANIFEST = dict(
     level="model_checking",
     text="TLC enumerates the full state graph of BlockAccept.tla (family hdr: 3 chain situations x 16 sets of already-added valid variants x 108 offered "
-         "header/body corruption x re-sign cases; family tx: the candidate re-executed by the real assembler with a third transaction of 19 classes - valid edge cases (expiring exactly at the block time / at "
+         "header/body corruption x re-sign cases; family tx: the candidate re-executed by the real assembler with more transactions of 24 classes - valid edge cases (expiring exactly at the block time / at "
          "block time + max lifetime, boxes), ill-formed ones (expired, too far in the future, foreign chain id, bad toName/message, box sub-transactions expired / too far / foreign chain / nested box) and replays "
-         "(of an ancestor's transaction, alone or inside a box; of the block's own transaction inside a box) - x sets of already-added variants; 35904 transitions, invariant OnlyValid, action property RefusalIsNoop); every transition is replayed as a real "
+         "(of an ancestor's transaction, alone or inside a box; of the block's own transaction inside a box; a box and one of its sub-transactions in either order, two boxes sharing a sub-transaction, a box listing one twice) - x sets of already-added variants; 82k transitions, invariant OnlyValid, action property RefusalIsNoop); every transition is replayed as a real "
          "block (RLP round trip) on a real node and TLC validates each logged outcome: accepted iff the spec says the block violates no condition of the "
          "property, and a refused block leaves stable/head/unconfirmed tree/confirm counts/balances at head/pool/replay-guard answers digest-identical.",
     note="Single corruptions only (plus re-signing); combinations that again form a valid block (other deputy's address + its slot + its key) are not offered. "
